@@ -3,6 +3,7 @@ ENTRY = dict(
     rule="histories of 2..6 connections over loopback TCP sharing one tls.NewLRUClientSessionCache against the Go server of the utls "
          "package (session tickets on; TLS 1.2-only, TLS 1.3-only, TLS 1.3 with CurvePreferences forcing a HelloRetryRequest, "
          "TLS 1.2+1.3), one virtual clock for both ends. Corpus: every predefined ClientHelloID and 12 seeded randomized ones "
+         "plus HelloCustom clients (ApplyPreset of parrot specs as is / without EMS / session_ticket / PSK, Fingerprinter copies) "
          "(classified by reflection over their spec: session_ticket / pre_shared_key / extended_master_secret / psk modes) twice "
          "against each server kind; PSK parrots with and without OmitEmptyPsk and through a PatchBuiltHello length observer; pairs "
          "differing in extended_master_secret; server-name shapes (two DNS names, a trailing dot, IPv4/IPv6 literals reaching one listener, "
@@ -19,6 +20,7 @@ ENTRY = dict(
              "a connection without ServerName has InsecureSkipVerify (otherwise the handshake is refused before the hello is built)",
              "the server's own cipher-suite choice and ticket length are inputs of the model (taken from the observation)",
              "binder validity is crypto: the model server accepts every binder; the real server's acceptance is observed",
+             "HelloCustom clients set PreferSkipResumptionOnNilExtension (without it a missing session extension panics by design)",
              "InsecureSkipTimeVerify / InsecureServerNameToVerify unset; no client certificates; no QUIC / 0-RTT; no ECH"],
     level_text="Proof (any history / any cache state) of: next-connection resumption for TLS 1.2 with session_ticket and TLS 1.3 with "
                "pre_shared_key, PSK last, binder patch length-neutral for any MAC of hash size, no cross-name offer, no EMS session "
